@@ -64,7 +64,14 @@ def coq_make(targets=None, timeout=1700):
         if rc != 0:
             return False, out
     cmd = ['make', '-j%d' % NCPU] + (targets or [])
-    rc, out = sh(cmd, cwd=COQ, timeout=timeout)
+    # checks of different properties may run at the same time: one make at a time in coq/
+    import fcntl
+    with open(os.path.join(COQ, '.build.lock'), 'w') as lk:
+        fcntl.flock(lk, fcntl.LOCK_EX)
+        try:
+            rc, out = sh(cmd, cwd=COQ, timeout=timeout)
+        finally:
+            fcntl.flock(lk, fcntl.LOCK_UN)
     return rc == 0, out
 
 
